@@ -5,7 +5,7 @@ import sys, os, subprocess, tempfile, shutil
 pid, name, rel = sys.argv[1:4]
 pairs = sys.argv[4:]
 src = os.path.join("/repo", rel)
-s = open(src).read()
+s = open(src, newline='').read()
 for i in range(0, len(pairs), 2):
     old, new = pairs[i], pairs[i + 1]
     if s.count(old) != 1:
@@ -13,10 +13,10 @@ for i in range(0, len(pairs), 2):
     s = s.replace(old, new)
 d = tempfile.mkdtemp()
 os.makedirs(os.path.join(d, "a", os.path.dirname(rel))); os.makedirs(os.path.join(d, "b", os.path.dirname(rel)))
-shutil.copy(src, os.path.join(d, "a", rel)); open(os.path.join(d, "b", rel), "w").write(s)
-out = subprocess.run(["diff", "-u", os.path.join("a", rel), os.path.join("b", rel)], cwd=d, capture_output=True, text=True).stdout
+shutil.copy(src, os.path.join(d, "a", rel)); open(os.path.join(d, "b", rel), "w", newline='').write(s)
+out = subprocess.run(["diff", "-u", os.path.join("a", rel), os.path.join("b", rel)], cwd=d, capture_output=True).stdout
 verif = os.path.dirname(os.path.dirname(os.path.abspath(__file__)))
 os.makedirs(os.path.join(verif, "mutants", pid), exist_ok=True)
-open(os.path.join(verif, "mutants", pid, name + ".patch"), "w").write(out)
+open(os.path.join(verif, "mutants", pid, name + ".patch"), "wb").write(out)
 shutil.rmtree(d)
-print("wrote mutants/%s/%s.patch (%d lines)" % (pid, name, out.count("\n")))
+print("wrote mutants/%s/%s.patch (%d lines)" % (pid, name, out.count(b"\n")))
